@@ -15,6 +15,7 @@ is a VIOLATION.  The proposed diffs are written to out/C05/proposed_fix_<n>.diff
 import json, os, re, shutil, subprocess, hashlib, time
 import vlib
 from vlib import Broken
+import c05_tv
 
 SPEC = os.path.join(vlib.VERIF, "spec", "machine")
 GEN = os.path.join(SPEC, "RegAllocProg.tla")
@@ -49,6 +50,21 @@ FIXES = {}   # key -> {"n": int, "diff": str}     (filled below by fix())
 
 def fix(key, n, diff):
     FIXES[key] = {"n": n, "diff": diff.lstrip("\n")}
+
+
+fix("x86:cmpxchg-accumulator-not-written", 1, r"""
+--- a/asmjit/x86/x86instdb.cpp
++++ b/asmjit/x86/x86instdb.cpp
+@@ -5814,7 +5814,7 @@ const InstDB::RWInfo InstDB::rw_info_b_table[] = {
+   { InstDB::RWInfo::kCategoryGeneric   , 0 , { 2 , 2 , 3 , 0 , 0 , 0  } }, // #13 [ref=16x]
+   { InstDB::RWInfo::kCategoryGeneric   , 4 , { 6 , 7 , 0 , 0 , 0 , 0  } }, // #14 [ref=1x]
+   { InstDB::RWInfo::kCategoryGeneric   , 5 , { 8 , 9 , 0 , 0 , 0 , 0  } }, // #15 [ref=1x]
+-  { InstDB::RWInfo::kCategoryGeneric   , 11, { 2 , 3 , 22, 0 , 0 , 0  } }, // #16 [ref=1x]
++  { InstDB::RWInfo::kCategoryGeneric   , 11, { 2 , 3 , 42, 0 , 0 , 0  } }, // #16 [ref=1x]
+   { InstDB::RWInfo::kCategoryGeneric   , 15, { 4 , 23, 18, 24, 25, 0  } }, // #17 [ref=1x]
+   { InstDB::RWInfo::kCategoryGeneric   , 12, { 26, 27, 28, 29, 30, 0  } }, // #18 [ref=1x]
+   { InstDB::RWInfo::kCategoryGeneric   , 0 , { 28, 31, 32, 16, 0 , 0  } }, // #19 [ref=1x]
+""")
 
 
 def write_fixes(ctx):
@@ -192,7 +208,7 @@ def leg2(ctx, bdir):
     progs = []
     # (a) exhaustive enumeration: every straight-line program of 2 block instructions over 3 registers from the
     #     fixed-register mix is generated (Randomized = FALSE), i.e. all pairs of hazards x operand permutations
-    cfg = gen_cfg(ctx, "gen_exh.cfg", [3, 4], ["tiny"], ["exh"], 2, False)
+    cfg = gen_cfg(ctx, "gen_exh.cfg", [3], ["tiny"], ["exh"], 2, False)
     if not q:
         r = vlib.run_tlc(ctx, GEN, cfg, workers=8, timeout=1500, heap="6g", tag="gen_exh")
         vlib.tlc_must_ok(ctx, r, "program enumeration (exhaustive)")
@@ -208,10 +224,12 @@ def leg2(ctx, bdir):
     for name, pset, blen, num in plan:
         cfg = gen_cfg(ctx, f"gen_{name}.cfg", pset, ALL_SK, ALL_HZ, blen, True)
         workers = 4
-        r = vlib.run_tlc(ctx, GEN, cfg, workers=workers, timeout=1500, heap="4g", tag=f"gen_{name}",
+        r = vlib.run_tlc(ctx, GEN, cfg, workers=workers, timeout=600, heap="4g", tag=f"gen_{name}",
                          simulate=max(1, num // workers), depth=6000, seed=ctx.seed)
-        if r.kind != "ok":
+        if r.kind != "ok" or "StackOverflowError" in r.out:
             raise Broken(f"program generation ({name}) kind={r.kind} violated={r.violated}\n" + "\n".join(r.out.splitlines()[-25:]))
+        m = re.search(r"The number of states generated: (\d+)", r.out)
+        r.generated = int(m.group(1)) if m else 0
         ctx.transitions += r.generated
         got = export_programs(ctx, r, len(progs) + 1)
         progs += got
@@ -271,13 +289,128 @@ def leg2(ctx, bdir):
                 ctx.known_finding(k, ctx.known[k])
         else:
             ctx.violation(what + f" (program id {pid}, {len(rec['prog'])} instructions)", sop)
+    return progs
+
+
+# ----------------------------------------------------------------------------------------------------------
+# Leg 1
+# ----------------------------------------------------------------------------------------------------------
+ARCHS = ["x64", "x86", "a64"]
+
+
+def record_and_translate(ctx, exe, arch, progs_path, tag, extra_args=()):
+    """-> (list of RegAlloc.tla function records, Counter of unsupported reasons, number recorded)"""
+    rp = ctx.path(f"{tag}_rec_{arch}.ndjson")
+    p = subprocess.run([exe, "record", arch, progs_path, rp] + list(extra_args), capture_output=True, text=True, timeout=1200)
+    if p.returncode != 0:
+        raise Broken(f"regalloc record {arch} failed rc={p.returncode}: {p.stderr[-400:]}")
+    out, why, n = [], {}, 0
+    with open(rp) as f:
+        for ln in f:
+            ln = ln.strip()
+            if not ln:
+                continue
+            rec = json.loads(ln)
+            n += 1
+            try:
+                out.append(c05_tv.translate(rec))
+            except c05_tv.Unsupported as e:
+                why[str(e)] = why.get(str(e), 0) + 1
+    return out, why, n
+
+
+def judge_tv(ctx, tv_path, mode, tag, workers=6, timeout=1500):
+    r = vlib.run_tlc(ctx, TV, TVCFG, workers=workers, timeout=timeout, heap="6g", tag=tag, env={"REC": tv_path, "MODE": mode})
+    if mode == "report":
+        if r.kind != "ok":
+            raise Broken(f"TLC (translation validation, report) kind={r.kind} rc={r.rc}\n" + "\n".join(r.out.splitlines()[-30:]))
+        rej = {}
+        for m in vlib.parse_beh(r.out, "REJECT"):
+            rej.setdefault(m[0], (m[1], m[2]))
+        return r, rej
+    if r.kind == "ok":
+        return r, {}
+    if r.kind == "violation" and r.violated in ("UsesSeeTheirValue", "SlotsInv"):
+        return r, {-1: (0, r.violated)}
+    raise Broken(f"TLC (translation validation, strict) kind={r.kind} rc={r.rc}\n" + "\n".join(r.out.splitlines()[-30:]))
+
+
+def tv_single(ctx, exe, arch, prog_rec, tag):
+    """record + translate + strict TLC for one program with `exe`.  True = accepted, False = rejected, None = unsupported."""
+    pp = ctx.path(f"{tag}.prog.ndjson")
+    vlib.write_ndjson(pp, [{k: prog_rec[k] for k in ("id", "meta", "prog", "inputs")}])
+    fns, why, n = record_and_translate(ctx, exe, arch, pp, tag)
+    if not fns:
+        return None, pp
+    tp = ctx.path(f"{tag}.tv.ndjson")
+    vlib.write_ndjson(tp, fns)
+    r, rej = judge_tv(ctx, tp, "strict", tag, workers=1, timeout=600)
+    return (not rej), pp
+
+
+def leg1(ctx, bdir, progs):
+    exe = os.path.join(bdir, "regalloc")
+    pp = ctx.path("leg1_programs.ndjson")
+    vlib.write_ndjson(pp, progs)
+    byid = {p["id"]: p for p in progs}
+    total, unsupported, rejected = 0, {}, 0
+    reported = 0
+    for arch in ARCHS:
+        fns, why, n = record_and_translate(ctx, exe, arch, pp, "leg1")
+        total += len(fns)
+        for k, v in why.items():
+            unsupported[f"{arch}: {k}"] = unsupported.get(f"{arch}: {k}", 0) + v
+        tp = ctx.path(f"leg1_tv_{arch}.ndjson")
+        vlib.write_ndjson(tp, fns)
+        r, rej = judge_tv(ctx, tp, "report", f"tv_{arch}")
+        ctx.states += r.distinct
+        ctx.transitions += r.generated
+        ctx.traces += len(fns) - len(rej)
+        ctx.log(f"leg 1 {arch}: {len(fns)} of {n} functions explored by TLC ({r.distinct} states), {len(rej)} rejected, unsupported: {why}")
+        for f in fns[:1]:
+            ctx.add_sample({"leg": 1, "arch": arch, "fid": f["fid"], "nloc": f["nloc"], "ops": len(f["code"]), "code_head": f["code"][:5]})
+        for f in fns:
+            ctx.distinct.add(("leg1", arch, f["fid"], len(f["code"])))
+        for fid in sorted(rej):
+            rejected += 1
+            if reported >= 8:
+                break
+            reported += 1
+            rec = byid[fid]
+            ok, rp = tv_single(ctx, exe, arch, rec, f"rej_{arch}_{fid}")
+            if ok is not False:
+                raise Broken(f"{arch} function {fid}: rejection not reproducible in isolation")
+            keys = None
+            if ctx.known:
+                for k in sorted(k for k in ctx.known if k in FIXES):
+                    vexe = variant_binary(ctx, bdir, [k])
+                    if vexe:
+                        ok2, _ = tv_single(ctx, vexe, arch, rec, f"cls_{arch}_{fid}_{FIXES[k]['n']}")
+                        if ok2:
+                            keys = [k]
+                            break
+            pc, what = rej[fid]
+            msg = (f"{arch}: translation validation rejects program {fid} (skeleton={rec['meta'][0]} pressure={rec['meta'][1]} mix={rec['meta'][2]}): "
+                   f"at op {pc} the instruction reads {what} (location, virtual register) but the location does not hold that register's value")
+            if keys:
+                for k in keys:
+                    ctx.known_finding(k, ctx.known[k])
+            else:
+                ctx.violation(msg, rp)
+    ctx.extra["leg1_functions"] = total
+    ctx.extra["leg1_rejected"] = rejected
+    ctx.extra["leg1_unsupported"] = unsupported
 
 
 def run(ctx):
     write_fixes(ctx)
     bdir = ctx.build("plain", "regalloc")
-    leg2(ctx, bdir)
+    progs = leg2(ctx, bdir)
+    sel = progs if ctx.quick else progs[-1500:]
+    leg1(ctx, bdir, sel)
     ctx.assumptions += [
+        "Leg 1 takes operand access kinds (read/write, byte masks) from asmjit's InstAPI::query_rw_info, except cmpxchg's accumulator (Intel SDM)",
+        "Leg 1 starts from the calling convention's argument locations and ends at the return; prolog/epilog correctness is C07's, argument classification C06's",
         "the macro expansion of a language instruction into x86 instructions (harness/regalloc.cpp build_x86) is trusted",
         "the host CPU executes x86-64 as architected",
     ]
